@@ -99,7 +99,7 @@ CHECKS["C02"] = {
     "quick_fs": ["default"],
     "thorough_fs": ["default", "checks", "no_copy_impls", "both"],
     "technique": "abstract interpretation of MIR for 4 word sizes + unbuffered reader: affine + linear inequalities with loop summaries and ghost position; a bit-sequence domain (each word = list of slices of symbolic sources with affine bounds, LP-ordered) compared with the stream specification; taint rule for byte-order conversion of fetched words",
-    "claim": "Necessary conditions of 'readers return exactly the stream's bits': (R1) every word fetched from the backend in BE code goes through to_be (LE: to_le) before any other use; (R2) for W in {u8..u64} and the unbuffered reader: all asserts, shift amounts (incl. the double-shift idioms), call preconditions and panics of refill/peek/skip_after_peek/read_bits/read_unary/skip_bits are discharged under the documented preconditions and 0 <= bits_in_buffer < 2W is re-established at every return; (R3) ghost position pos = W*word_pos - bits_in_buffer (unbuffered: bit_index) moves by exactly n for read/skip, 0 for peek (so peeking is repeatable), result+1 for read_unary on every successful path, through multi-word slow paths and loops; (R4) Clone copies every field; (R7) CONTENT, in the bit-sequence domain, for BufBitReader over u8..u64, both endiannesses, every path: with Bf the buffered bits and w_0, w_1, ... the words fetched by the call, U = Bf ++ w_0 ++ w_1 ...; read_bits(n) and peek_bits(n) return exactly the first n bits of U, zero-extended (BE: first stream bit most significant; LE: least significant), and after read_bits / peek_bits / skip_bits / skip_bits_after_peek / read_unary the buffer holds exactly the rest of U inside its valid window and zeros outside. Undecided: the content returned by the unbuffered BitReader (R2/R3/R6 only) and by copy_to; position arithmetic is assumed not to overflow for streams shorter than 2^64 bits (lemmas L1-L3).",
+    "claim": "Necessary conditions of 'readers return exactly the stream's bits': (R1) every word fetched from the backend in BE code goes through to_be (LE: to_le) before any other use; (R2) for W in {u8..u64} and the unbuffered reader: all asserts, shift amounts (incl. the double-shift idioms), call preconditions and panics of refill/peek/skip_after_peek/read_bits/read_unary/skip_bits are discharged under the documented preconditions and 0 <= bits_in_buffer < 2W is re-established at every return; (R3) ghost position pos = W*word_pos - bits_in_buffer (unbuffered: bit_index) moves by exactly n for read/skip, 0 for peek (so peeking is repeatable), result+1 for read_unary on every successful path, through multi-word slow paths and loops; (R4) Clone copies every field; (R7) CONTENT, in the bit-sequence domain, for BufBitReader over u8..u64, both endiannesses, every path: with Bf the buffered bits and w_0, w_1, ... the words fetched by the call, U = Bf ++ w_0 ++ w_1 ...; read_bits(n) and peek_bits(n) return exactly the first n bits of U, zero-extended (BE: first stream bit most significant; LE: least significant), and after read_bits / peek_bits / skip_bits / skip_bits_after_peek / read_unary the buffer holds exactly the rest of U inside its valid window and zeros outside. For the unbuffered BitReader (u64 words): read_bits/peek_bits position the backend at word bit_index/64 and return exactly the n bits at offset bit_index%64 of the words fetched from there. Undecided: read_unary of the unbuffered reader at content level (R2/R3 only); position arithmetic is assumed not to overflow for streams shorter than 2^64 bits (lemmas L1-L3).",
     "note": "Trusted: rustc MIR, exporter, contracts, ghost model of WordRead/WordSeek, LP entailment; lemmas.json entries are assumptions.",
     "explanation": "E3/E4 obligations + structural rules",
 }
@@ -109,10 +109,10 @@ CHECKS["C08"] = {
     "level": "proof",
     "quick_fs": ["default", "no_copy_impls"],
     "thorough_fs": ["default", "checks", "no_copy_impls", "both"],
-    "technique": "abstract interpretation of MIR with ghost accounting over the six copy bodies x word sizes x feature sets; impl inventory per feature set",
-    "claim": "For BufBitReader::copy_to (u8..u64), BufBitWriter::copy_from (u8..u128) and the two chunked defaults, with and without no_copy_impls: (P1) every internal call respects the <= 64 bits-per-transfer contract of read_bits/write_bits, all asserts/panics are discharged and the buffer-counter invariants are re-established; (P3) on every successful path the source advances by exactly n and the destination receives exactly n bits, so specialised and generic versions have the same declared effect; (P4) the feature removes exactly the four overrides. Undecided: order/values of the copied bits; reader buffer cleanliness after a copy is the bit-range clause (P2).",
+    "technique": "abstract interpretation of MIR over the six copy bodies x word sizes x feature sets: affine/LP obligations with ghost accounting, bit ranges, and the bit-sequence domain (content of every transfer and of the buffers); impl inventory per feature set",
+    "claim": "For BufBitReader::copy_to (u8..u64), BufBitWriter::copy_from (u8..u128) and the two chunked defaults, with and without no_copy_impls: (P1) every internal call respects the <= 64 bits-per-transfer contract of read_bits/write_bits, all asserts/panics are discharged and the buffer-counter invariants are re-established; (P3) on every successful path the source advances by exactly n and the destination receives exactly n bits, so specialised and generic versions have the same declared effect; (P4) the feature removes exactly the four overrides; (P2) reader buffer clean / writer ORs disjoint after a copy; (P5) CONTENT of the four specialised copies, same endianness, every path: copy_to hands the destination, call by call, exactly the next bits of the source - the buffered bits (through the own read_bits of the excess when more than 64 are buffered), then each fetched word whole in the iteration that fetched it, then the head of the last word - and keeps exactly the rest of that word in a clean buffer; copy_from delivers P ++ r_1 as its first word, then exactly the W bits read in each iteration, keeps exactly the last value read, and (words wider than 64 bits) forwards each value read to write_bits with its width; no fetched word or value read is dropped or used twice. With C01.W6/C02.R7 (the primitives move the right bits) this is bit-for-bit equivalence with a one-bit-at-a-time transfer for the specialised paths. Undecided: content of the two chunked default implementations (accounting only).",
     "note": "Trusted: rustc MIR, exporter, contracts, ghost model, LP entailment.",
-    "explanation": "E3/E4 obligations over copy implementations",
+    "explanation": "E3/E4 obligations + bit-range + bit-sequence content clauses over copy implementations",
 }
 
 CHECKS["C12"] = {
